@@ -294,3 +294,21 @@ mut("c19-cond-placeholder-described", "C19", "MUST", "hclsyntax/expression.go",
 mut("c19-cond-keep-two-tests", "C19", "KEEP", "hclsyntax/expression.go",
     "\t\tif diags.HasErrors() {\n\t\t\t// A result expression that failed",
     "\t\tif trueDiags.HasErrors() || falseDiags.HasErrors() {\n\t\t\t// A result expression that failed", "")
+
+# ---- rules of DESIGN §9.16-9.17 ------------------------------------------------------------------------
+mut("c08-implied-one-level", "C08", "MUST", "hcldec/spec.go",
+    "\tret := s.Nested.impliedType()\n\tfor range s.LabelNames {\n\t\tret = cty.Map(ret)\n\t}\n\treturn ret\n", "\treturn cty.Map(s.Nested.impliedType())\n", "labels.depth")
+mut("c08-keep-implied-counting-loop", "C08", "KEEP", "hcldec/spec.go",
+    "\tfor range s.LabelNames {\n\t\tret = cty.Map(ret)\n\t}\n\treturn ret\n", "\tfor i := 0; i < len(s.LabelNames); i++ {\n\t\tret = cty.Map(ret)\n\t}\n\treturn ret\n", "")
+mut("c08-nested-labels-from-one", "C08", "MUST", "hcldec/spec.go",
+    "decode(childBlock.Body, childLabels[len(s.LabelNames):], ctx, s.Nested, false)", "decode(childBlock.Body, childLabels[1:], ctx, s.Nested, false)", "labels.consumed", nth=2)
+mut("c08-keep-nested-labels-local", "C08", "KEEP", "hcldec/spec.go",
+    "decode(childBlock.Body, childLabels[len(s.LabelNames):], ctx, s.Nested, false)", "decode(childBlock.Body, childLabels[len(s.LabelNames):len(childLabels)], ctx, s.Nested, false)", "", nth=1)
+mut("c14-range-from-startrange", "C14", "MUST", "hclsyntax/parser.go",
+    "\t\tSrcRange: hcl.RangeBetween(startRange, falseExpr.Range()),", "\t\tSrcRange: hcl.RangeBetween(condExpr.StartRange(), falseExpr.Range()),", "range.start")
+mut("c14-keep-diag-startrange", "C14", "KEEP", "hclsyntax/parser.go",
+    "\t\t\tContext:  hcl.RangeBetween(startRange, colon.Range).Ptr(),", "\t\t\tContext:  hcl.RangeBetween(condExpr.StartRange(), colon.Range).Ptr(),", "")
+mut("c10-close-token-is-comma", "C10", "MUST", "hclsyntax/parser.go",
+    "\t\t\t// A trailing comma after the last argument gets us in here.\n\t\t\tcloseTok = p.Read() // eat closing paren", "\t\t\t// A trailing comma after the last argument gets us in here.\n\t\t\tcloseTok = sep\n\t\t\tp.Read() // eat closing paren", "token.kind")
+mut("c12-accessor-counts-reads", "C12", "MUST", "hclwrite/ast_block.go",
+    "func (bl *blockLabels) Current() []string {\n", "func (bl *blockLabels) Current() []string {\n\tbl.items.Add(nil)\n", "accessor.readonly")
